@@ -252,6 +252,10 @@ class SimpleFocusListWalker(ListWalker, MonitoredFocusList[_T]):
         self.focus = position
         self._modified()
 
+    def _focus_changed(self, new_focus: int) -> None:
+        # an assignment to .focus moves the focus just as set_focus() does: the ListBox has to hear of it
+        self._modified()
+
     def next_position(self, position: int) -> int:
         """
         Return position after start_from.
